@@ -387,7 +387,25 @@ def layout(rng, toks, style="mixed"):
         pieces.append(sep)
         pieces.append(tok[0])
         prev = tok
-    text = "".join(pieces) + (nl if style != "dense" or (prev and prev[1] == "d") else "")
+    if style == "mixed" and len(toks) > 4 and rng.random() < 0.35:
+        # a range of tokens inside a branch of a conditional that is kept: "#if !NOPE" .. "#endif", or the "#else" branch of "#if NOPE", possibly with a
+        # removed branch around it; the directive lines stand on their own between two tokens
+        i = rng.randrange(0, len(toks) - 1)
+        j = rng.randrange(i + 1, len(toks) + 1)
+        opener, closer = rng.choice([("#if !NOPE", "#endif"), ("#if NOPE\nremoved( {\n#else", "#endif"), ("#if !NOPE", "#else\n\"removed\n#endif"),
+                                     ("  #if !NOPE // kept", "\t#endif"), ("#if NOPE\n#elif !NOPE", "#elif OTHER\nremoved\n#else\nremoved too\n#endif")])
+        ind = rng.choice(["", "", "    ", "\t"])
+        before = pieces[2 * i].rstrip(" \t")
+        pieces[2 * i] = before + (nl if (before or i > 0) and not before.endswith("\n") else "") + opener.replace("\n", nl) + nl + ind
+        if j < len(toks):
+            before = pieces[2 * j].rstrip(" \t")
+            pieces[2 * j] = before + (nl if not before.endswith("\n") else "") + closer.replace("\n", nl) + nl + ind
+            tail = ""
+        else:
+            tail = nl + closer.replace("\n", nl)
+    else:
+        tail = ""
+    text = "".join(pieces) + tail + (nl if style != "dense" or (prev and prev[1] == "d") else "")
     # positions
     locs = []
     row, col = 1, 1
@@ -419,20 +437,33 @@ def resolve(node, locs):
 
 
 def blocks_of(text):
-    """the source blocks the preprocessor keeps (for the layouts produced here: every #if condition is false)"""
+    """the source blocks the preprocessor keeps (for the layouts produced here: NOPE, X and OTHER are undefined, conditions are NOPE..., !NOPE or OTHER)"""
     lines = text.split("\n")
-    out, cur, removed = [], None, False
+    out, cur = [], None
+    stack = []         # per open conditional: [enclosing region kept, a branch has been taken, this branch kept]
+    truth = lambda cond: cond.split("//")[0].strip() == "!NOPE"
+    kept = lambda: all(f[2] for f in stack)
     for i, l in enumerate(lines):
         body = l + ("\n" if i < len(lines) - 1 else "")
         st = l.lstrip()
         if st.startswith("#"):
             if st.startswith("#if"):
-                removed = True
-            elif st.startswith(("#else", "#endif")):
-                removed = False
+                t = truth(st[3:])
+                stack.append([kept(), t, t])
+            elif st.startswith("#elif") and stack:
+                f = stack[-1]
+                t = (not f[1]) and truth(st[5:])
+                f[2] = t
+                f[1] = f[1] or t
+            elif st.startswith("#else") and stack:
+                f = stack[-1]
+                f[2] = not f[1]
+                f[1] = True
+            elif st.startswith("#endif") and stack:
+                stack.pop()
             cur = None
             continue
-        if removed:
+        if not kept():
             cur = None
             continue
         if cur is None:
